@@ -7,7 +7,7 @@ import itertools
 import numpy as np
 from . import common
 
-THEOREM_FILES = ['NumqiProps/C08.lean']
+THEOREM_FILES = ['NumqiProps/C08.lean', 'NumqiProps/C08Batch.lean']
 LEVEL = 'proof'
 RULE = ('ops are generated exhaustively for n=1,2 (n=3 in thorough): every phased Pauli through every conversion, every ordered pair through '
         'mul/comm; plus random operators up to n=12 and indices up to 4^31, single and batched code paths. An op is non-trivial when the '
@@ -85,6 +85,17 @@ def impl_op(op):
         return guarded(lambda: str(G.pauli_str_to_index(t[2])))
     if k in ('mat', 'full'):
         return guarded(lambda: mat_to_chars(P(f2arr(t[3])).full_matrix))
+    if k == 'ofindexb':
+        return guarded(lambda: bits(G.pauli_index_to_F2(np.array([int(t[3])], dtype=np.uint64), int(t[2]), with_sign=True)[0]))
+    if k == 'toindexb':
+        return guarded(lambda: str(int(G.pauli_F2_to_index(f2arr(t[3])[None, :], with_sign=True)[0])))
+    if k == 'nplist':
+        return guarded(lambda: '|'.join(';'.join(f'{int(round(v.real))},{int(round(v.imag))}' for v in np.asarray(m).reshape(-1)) for m in P(f2arr(t[3])).np_list))
+    if k == 'fromnp':
+        def f():
+            mats = [np.array([complex(*map(int, e.split(','))) for e in m.split(';')]).reshape(2, 2) for m in t[4].split('|')]
+            return bits(P.from_np_list(mats, PH[int(t[3])]).F2)
+        return guarded(f)
     if k == 'herm':
         def f():
             M = P(f2arr(t[3])).full_matrix
@@ -125,6 +136,17 @@ def gen_ops(ctx):
             ops += [f'C08 full {n} {a}']
         s = ''.join(rng.choice('IXYZ') for _ in range(n))
         ops += [f'C08 ofstr {n} {s} {rng.randint(0, 3)}', f'C08 str2idx {s}']
+    # batched code paths against their own Lean model (NumqiModel/PauliBatch.lean; theorems batched = single in NumqiProps/C08Batch.lean)
+    for _ in range(nr):
+        n = rng.choice([1, 2, 3, 5, 8, 16, 31])
+        a = ''.join(rng.choice('01') for _ in range(2 * n + 2))
+        ops += [f'C08 ofindexb {n} {rng.randrange(4 ** n)}', f'C08 toindexb {n} {a}']
+        if n <= 8:
+            e = rng.randint(0, 3)
+            mats = '|'.join(';'.join(x for x in {'I': ['1,0', '0,0', '0,0', '1,0'], 'X': ['0,0', '1,0', '1,0', '0,0'], 'Y': ['0,0', '0,-1', '0,1', '0,0'], 'Z': ['1,0', '0,0', '0,0', '-1,0']}[c]) for c in (rng.choice('IXYZ') for _ in range(n)))
+            ops += [f'C08 nplist {n} {a}', f'C08 fromnp {n} {e} {mats}']
+    # a non-Pauli factor must be rejected by from_np_list
+    ops += ['C08 fromnp 1 0 1,0;1,0;0,0;1,0', 'C08 fromnp 2 0 1,0;0,0;0,0;1,0|2,0;0,0;0,0;0,0']
     for _ in range(nr):
         n = rng.choice([13, 16, 20, 25, 31])
         idx = rng.randrange(4 ** n)
